@@ -473,6 +473,31 @@ def independence_check(out, i, src_live, how, op, recipe, tol, cls):
     shared = [n for (n, p), (_, q) in zip(sorted(O.state_dict(keep_vars=True).items()), sorted(Cm2.state_dict(keep_vars=True).items())) if p is q or (p.numel() > 0 and p.data_ptr() == q.data_ptr())]
     if shared:
         out.violate("copy_not_independent", i, "%s copy shares storage with its original: %s" % (how, shared[:3]), quantity="storage", **cls)
+    # ... gradients do not flow from the copy into its original: O predicts with autograd enabled (its caches then carry a
+    # graph), is copied, and a backward pass through the copy's prediction must leave every .grad of O untouched
+    try:
+        O3 = pickle.loads(pickle.dumps(src_live.model, protocol=op["proto"])) if how == "pickle" else copy.deepcopy(src_live.model)
+        l3 = driver.Live(recipe, model=O3)
+        if src_live.is_var:
+            l3.x, l3.y = src_live.x, src_live.y
+        gprobe = dict(probe, grad=True)
+        s3, _ = driver.apply(l3, gprobe, scratch)
+        C3 = pickle.loads(pickle.dumps(O3, protocol=op["proto"])) if how == "pickle" else copy.deepcopy(O3)
+        for prm in O3.parameters():
+            prm.grad = None
+        lc3 = driver.Live(recipe, model=C3)
+        if src_live.is_var:
+            lc3.x, lc3.y = src_live.x, src_live.y
+        driver.set_mode(lc3, False)
+        torch.manual_seed(op["init_seed"] + 8)
+        d3 = C3(*driver.test_args(recipe, gprobe))
+        (d3.mean.sum() + d3.variance.sum()).backward()
+        leaked = [n for n, prm in O3.named_parameters() if prm.grad is not None]
+        out.stats["probe:gradient_isolation_checked"] += 1
+        if leaked:
+            out.violate("copy_not_independent", i, "%s copy: a backward pass through the copy's prediction put gradients on its original's parameters %s" % (how, leaked[:3]), quantity="gradient", **cls)
+    except Exception as e:  # noqa  (copies of models holding non-leaf caches may fail: judged elsewhere, F10)
+        out.stats["probe:gradient_isolation_unavailable_" + type(e).__name__] += 1
     # ... and no mutable object of the object graph (a dict of added loss terms, a sub-module, a strategy) is shared
     try:
         so = shared_objects(O, Cm2)
